@@ -87,14 +87,19 @@ func computeCallExpression(call *CallExpression, prependPath string, jsonHelperP
 				}
 			} else if call.SelectExpression.Key != nil {
 				// Queries like `request.headers["x"] == "z"`` goes here
+				selector := fmt.Sprintf("[\"%s\"]", strings.Trim(*call.SelectExpression.Key, "\""))
+				if *call.SelectExpression.Key == "*" {
+					// `request.path[*]`: the unquoted `*` is the wildcard, not a key named "*"
+					selector = "[*]"
+				}
 				if jsonHelperUsed {
-					jsonPathParam, err := jp.ParseString(fmt.Sprintf("[\"%s\"]", strings.Trim(*call.SelectExpression.Key, "\"")))
+					jsonPathParam, err := jp.ParseString(selector)
 					if err == nil {
 						call.Parameters = []*Parameter{{JsonPath: &jsonPathParam}}
 					}
-					prop.Path = fmt.Sprintf("[\"%s\"]", strings.Trim(*call.SelectExpression.Key, "\""))
+					prop.Path = selector
 				} else {
-					prop.Path = fmt.Sprintf("%s[\"%s\"]", prop.Path, strings.Trim(*call.SelectExpression.Key, "\""))
+					prop.Path = fmt.Sprintf("%s%s", prop.Path, selector)
 				}
 			}
 
